@@ -144,6 +144,8 @@ class Ctx:
         self.abstained[reason] += 1
 
     def nontriv(self, case: Any, sample: Any = None):
+        if self.failure is not None:
+            return  # shrinking: not part of the generate phase
         h = case if isinstance(case, str) and len(case) == 16 else case_hash(case)
         if h not in self.nontrivial:
             self.nontrivial.add(h)
